@@ -1,3 +1,120 @@
 import Cppcms.Common
-/-! Line-protocol driver for C04 (stub: model not written yet). -/
-def main : IO Unit := Cppcms.lineLoop () (fun s _ => (s, "unimplemented"))
+import Cppcms.C04.Model
+import Cppcms.C04.Spec
+/-! Line-protocol driver for C04.
+
+`C flags entities tags props preds input table` : run the model of validate / validate_and_filter_if_invalid /
+filter (both methods) on `input` under the rule set described by the line.
+`J flags entities tags props preds text table` : judge — is every markup candidate the lenient tokenizer of
+`Spec.lean` finds in `text` allowed by the rules?
+`table` carries the verdicts of the external attribute validators (regex = PCRE, URI validator) recorded
+from the real library: `id:valuehex:0|1,…`.  A verdict that is needed but absent is reported, never guessed. -/
+open Cppcms Cppcms.C04
+
+def listOf (s : String) (sep : String) : List String :=
+  if s == "-" || s == "" then [] else s.splitOn sep
+
+def parseKind : String → Option TagKind
+  | "0" => some .invalidTag
+  | "1" => some .openingAndClosing
+  | "2" => some .standAlone
+  | "3" => some .anyTag
+  | _ => none
+
+def parseSpec (s : String) : Option PropSpec :=
+  if s == "b" then some .boolean
+  else if s == "i" then some .integer
+  else if s.startsWith "o" then (s.drop 1).toString.toNat?.map PropSpec.oracle
+  else none
+
+def parseDesc (flags ents tags props : String) : Option RuleDesc := do
+  let fl := flags.toList
+  if fl.length ≠ 3 then none
+  let b (c : Char) : Bool := c == '1'
+  let es ← (listOf ents ",").mapM parseHex
+  let ts ← (listOf tags ",").mapM fun t =>
+    match t.splitOn ":" with
+    | [n, k] => do some ((← parseHex n), (← parseKind k))
+    | _ => none
+  let ps ← (listOf props ",").mapM fun t =>
+    match t.splitOn ":" with
+    | [tn, pn, sp] => do some ((← parseHex tn), (← parseHex pn), (← parseSpec sp))
+    | _ => none
+  some { xhtml := b (fl.getD 0 '1'), comments := b (fl.getD 1 '0'), numeric := b (fl.getD 2 '0'),
+         entities := es, tags := ts, props := ps }
+
+def parseTable (s : String) : Option (List (Nat × Bytes × Bool)) :=
+  (listOf s ",").mapM fun t =>
+    match t.splitOn ":" with
+    | [i, v, b] => do some ((← i.toNat?), (← parseHex v), b == "1")
+    | _ => none
+
+def oracleOf (tbl : List (Nat × Bytes × Bool)) (dflt : Bool) (id : Nat) (v : Bytes) : Bool :=
+  match tbl.find? (fun t => t.1 == id && t.2.1 == v) with
+  | some t => t.2.2
+  | none => dflt
+
+def optOut : Option Bytes → String
+  | none => "1:-"
+  | some o => "0:" ++ toHex o
+
+def isMarkupTy : Ty → Bool
+  | .plain => false
+  | _ => true
+
+def runCase (d : RuleDesc) (tbl : List (Nat × Bytes × Bool)) (dflt : Bool) (x : Bytes) : String :=
+  let r := mkRules d (oracleOf tbl dflt)
+  let frm := filter r .remove x
+  let fesc := filter r .escape x
+  s!"v={boolStr (validate r x)} rm={optOut (validateAndFilter r .remove x)} esc={optOut (validateAndFilter r .escape x)} frm={toHex frm} fesc={toHex fesc} vrm={boolStr (validate r frm)} vesc={boolStr (validate r fesc)}"
+
+def stats (d : RuleDesc) (tbl : List (Nat × Bytes × Bool)) (x : Bytes) : String :=
+  let r := mkRules d (oracleOf tbl false)
+  let a := analyse r x
+  let n := a.1.length
+  let mk := (a.1.filter fun e => isMarkupTy e.ty).length
+  let parsedMk := ((parseAll x).filter fun e => isMarkupTy e.ty && !isInvalid e).length
+  let inv := (a.1.filter isInvalid).length
+  s!"st={n}:{parsedMk}:{mk}:{inv}"
+
+/-- oracle verdicts the judge would need but the table lacks -/
+def missing (d : RuleDesc) (tbl : List (Nat × Bytes × Bool)) (ms : List Spec.Markup) : List (Nat × Bytes) :=
+  ms.flatMap fun m =>
+    match m with
+    | .tag _ name attrs _ _ =>
+      attrs.filterMap fun a =>
+        match a.2, lookupProp d name a.1 with
+        | some v, some (.oracle id) =>
+          if (tbl.find? (fun t => t.1 == id && t.2.1 == v)).isSome then none else some (id, v)
+        | _, _ => none
+    | _ => []
+
+def judge (d : RuleDesc) (tbl : List (Nat × Bytes × Bool)) (x : Bytes) : String :=
+  let ms := Spec.lenientMarkup x
+  let miss := (missing d tbl ms).eraseDups
+  if !miss.isEmpty then
+    "miss " ++ ",".intercalate (miss.map fun p => s!"{p.1}:{toHex p.2}")
+  else
+    let r := mkRules d (oracleOf tbl false)
+    match ms.find? (fun m => !Spec.allowed r m) with
+    | none => s!"1 {ms.length}"
+    | some m => "0 " ++ (reprStr m).replace "\n" " "
+
+def step (_ : Unit) (line : String) : Unit × String :=
+  let r : String :=
+    match words line with
+    | ["C", fl, es, ts, ps, _, x, tb] =>
+      match parseDesc fl es ts ps, parseHex x, parseTable tb with
+      | some d, some x, some tbl =>
+        let a := runCase d tbl false x
+        let b := runCase d tbl true x
+        if a == b then a ++ " " ++ stats d tbl x else "oracle-miss"
+      | _, _, _ => "bad-op"
+    | ["J", fl, es, ts, ps, _, x, tb] =>
+      match parseDesc fl es ts ps, parseHex x, parseTable tb with
+      | some d, some x, some tbl => judge d tbl x
+      | _, _, _ => "bad-op"
+    | _ => "bad-op"
+  ((), r)
+
+def main : IO Unit := lineLoop () step
